@@ -418,6 +418,11 @@ func TestC03(t *testing.T) {
 					early = append(early, c03Early{src, c03Verdict(src)})
 				}
 			}()
+			if kind == "decorator-nesting" {
+				// a compiler that expands these for ever dies of stack exhaustion,
+				// which cannot be recovered: leave word for the driver
+				vstat.Begin(c)
+			}
 			if kind == "strptime-layout-twins" {
 				c.NoDet, c.Reps = false, 2
 			}
@@ -648,6 +653,21 @@ func c03Shapes(thorough bool, emit func(kind, src string) bool) {
 			if k == n {
 				break
 			}
+		}
+	}
+	// decorators defined inside decorators, using themselves and each other
+	// before they are completely defined (must be refused, not expanded for ever)
+	nests := []string{
+		"def x {\n  def y {\n    /b/ {\n      @x {\n        next\n      }\n    }\n  }\n  /a/ {\n    @y {\n      next\n    }\n  }\n}\n@x {\n  c++\n}\n",
+		"def x {\n  def y {\n    def z {\n      /c/ {\n        @x {\n          next\n        }\n      }\n    }\n    /b/ {\n      @z {\n        next\n      }\n    }\n  }\n  /a/ {\n    @y {\n      next\n    }\n  }\n}\n@x {\n  c++\n}\n",
+		"def x {\n  /a/ {\n    @x {\n      next\n    }\n  }\n}\n@x {\n  c++\n}\n",
+		"def x {\n  def y {\n    /b/ {\n      @y {\n        next\n      }\n    }\n  }\n  /a/ {\n    @y {\n      next\n    }\n  }\n}\n@x {\n  c++\n}\n",
+		"def x {\n  def y {\n    /b/ {\n      next\n    }\n  }\n  /a/ {\n    @y {\n      next\n    }\n  }\n}\n@x {\n  @x {\n    c++\n  }\n}\n",
+		"def x {\n  /a/ {\n    next\n  }\n}\ndef y {\n  @x {\n    def x {\n      /b/ {\n        @y {\n          next\n        }\n      }\n    }\n    next\n  }\n}\n@y {\n  c++\n}\n",
+	}
+	for _, n := range nests {
+		if !emit("decorator-nesting", "counter c\n"+n) {
+			return
 		}
 	}
 	// strptime layouts in pairs that differ only in characters the checker
